@@ -32,8 +32,8 @@ def match(entry, signature, labels):
     if not any(pat == signature or fnmatch.fnmatchcase(signature, pat) for pat in pats):
         return False
     need = entry.get("witness_labels") or []
-    have = set(labels)
-    return all(n in have for n in need)
+    have = list(labels)
+    return all(any(n == h or fnmatch.fnmatchcase(h, n) for h in have) for n in need)
 
 
 def explain(entries, signature, labels):
